@@ -14,7 +14,7 @@
 (*   "eq"   a, b          two terms claimed to denote the same quantity    *)
 (* out = [k |-> "expr", e |-> term] | [k |-> "unident"] | [k |-> "exc"]    *)
 (***************************************************************************)
-EXTENDS ID, Json, IOUtils
+EXTENDS ID, ExprMath, Json, IOUtils
 
 CONSTANTS Seeds, Layout, Ternary   \* Layout: "edge" | "clique"; Ternary: set of nodes with 3 values
 
@@ -43,6 +43,9 @@ RecTerms(r, grp_n) ==
   CASE r.k = "do"  -> OutTerm(r) \cup {TruthDo(ToSet(r.x), ToSet(r.y), 0)}
     [] r.k = "cdo" -> OutTerm(r) \cup {TruthCDo(ToSet(r.x), ToSet(r.y), ToSet(r.z), 0)}
     [] r.k = "eq"  -> {r.a, r.b}
+    [] r.k = "calc"  -> OutTerm(r) \cup {Math(r.m), DevMath(r.m)}
+    [] r.k = "canon" -> OutTerm(r) \cup {r.pre}
+    [] r.k = "pp"    -> OutTerm(r) \cup {r.a}
     [] r.k = "q"   -> OutTerm(r) \cup {TruthDo(ToSet(grp_n) \ ToSet(r.s), ToSet(r.s), 0)}
     [] OTHER -> {}
 
@@ -110,8 +113,55 @@ JudgeQ(G, Ws, r) ==
          IF "unser" \in DOMAIN r.out THEN Verdict(r.id, FALSE, "vocabulary", NoCmp)
          ELSE SemClause(r.id, Ws, r.out.e, TruthDo(G.n \ ToSet(r.s), ToSet(r.s), 0))
 
+\* ---- expression calculator records (C10-C13) -----------------------------------------------------
+\* an operator call: the object y0 built must denote the mathematical operation applied to its arguments
+JudgeCalc(Ws, r) ==
+  LET mt == Math(r.m) IN
+  CASE r.out.k = "exc" -> LET c == Cmp(Ws, mt, mt) IN   \* raising is accepted only where the quantity is undefined
+                          IF c.ndef = 0 THEN Verdict(r.id, TRUE, "raised-on-undefined", c)
+                          ELSE Verdict(r.id, FALSE, "raised", c)
+    [] r.out.k = "expr" ->
+         IF "unser" \in DOMAIN r.out THEN Verdict(r.id, FALSE, "unserialisable", NoCmp)
+         ELSE IF r.m.op = "chain" /\ ~ChainShape(r.out.e) THEN Verdict(r.id, FALSE, "chain-shape", NoCmp)
+         ELSE LET c == Cmp(Ws, r.out.e, mt) IN
+              IF c.nbad > 0
+              THEN LET dv == DevMath(r.m)
+                       c2 == IF dv = mt THEN c ELSE Cmp(Ws, r.out.e, dv) IN
+                   IF c2.nbad = 0 /\ c2.ndef > 0 THEN Verdict(r.id, FALSE, "value-dev-cond", c)
+                   ELSE Verdict(r.id, FALSE, "value", c)
+              ELSE Verdict(r.id, TRUE, IF c.ndef = 0 THEN "skip-undefined" ELSE "ok", c)
+\* canonicalisation (C10): same denotation, claimed for well-scoped presentations
+JudgeCanon(Ws, r) ==
+  IF ~WellScoped(r.pre) THEN Verdict(r.id, TRUE, "skip-not-well-scoped", NoCmp)
+  ELSE IF HasQ(r.pre) THEN Verdict(r.id, TRUE, "skip-q-factor", NoCmp)
+  ELSE CASE r.out.k = "exc" -> Verdict(r.id, FALSE, "raised", NoCmp)
+         [] r.out.k = "expr" ->
+              IF "unser" \in DOMAIN r.out THEN Verdict(r.id, FALSE, "unserialisable", NoCmp)
+              ELSE LET c == Cmp(Ws, r.out.e, r.pre) IN
+                   IF c.nbad > 0 THEN Verdict(r.id, FALSE, "value", c)
+                   ELSE Verdict(r.id, TRUE, IF c.ndef = 0 THEN "skip-undefined" ELSE "ok", c)
+\* print / parse (C12): parsing succeeds, same denotation; on the un-nested family also the same object and text
+JudgePP(Ws, r) ==
+  IF ~NamesOnce(r.a) THEN Verdict(r.id, TRUE, "skip-name-twice", NoCmp)
+  ELSE CASE r.out.k = "exc" -> Verdict(r.id, FALSE, "parse-failed", NoCmp)
+         [] r.out.k = "expr" ->
+              IF "unser" \in DOMAIN r.out THEN Verdict(r.id, FALSE, "parse-not-expression", NoCmp)
+              ELSE LET c == Cmp(Ws, r.out.e, r.a) IN
+                   IF c.nbad > 0 THEN Verdict(r.id, FALSE, "value", c)
+                   ELSE IF Unnested(r.a, FALSE) /\ BuilderOrdered(r.a) /\ (r.out.e # r.a \/ ~r.out.same_obj \/ ~r.out.same_str)
+                        THEN Verdict(r.id, FALSE, "roundtrip-equality", c)
+                   ELSE Verdict(r.id, TRUE, IF c.ndef = 0 THEN "skip-undefined" ELSE "ok", c)
+\* normal form (C11): two canonical forms that must be identical objects
+JudgeSame(r) ==
+  IF r.a = r.b /\ r.eq /\ r.str THEN Verdict(r.id, TRUE, "ok", NoCmp)
+  ELSE Verdict(r.id, FALSE, "not-identical", NoCmp)
+
 Judge(G, Ws, r) ==
   CASE r.k = "do"  -> JudgeDo(G, Ws, r)
+    [] r.k = "calc"  -> JudgeCalc(Ws, r)
+    [] r.k = "canon" -> JudgeCanon(Ws, r)
+    [] r.k = "pp"    -> JudgePP(Ws, r)
+    [] r.k = "same"  -> JudgeSame(r)
     [] r.k = "q"   -> JudgeQ(G, Ws, r)
     [] r.k = "vocab" -> JudgeVocab(G, r)
     [] r.k = "cdo" -> JudgeCDo(G, Ws, r)
